@@ -1,4 +1,4 @@
-CONSTANTS Peers = {1, 2, 3}  Racy = FALSE  MsgsPerPeer = 2
+CONSTANTS Peers = {1, 2, 3}  Racy = FALSE  Connect = FALSE  MsgsPerPeer = 2
 KindSet = {"ping", "version", "inv", "unknown"}
 SPECIFICATION Spec
 INVARIANT ExactlyOnce
